@@ -52,7 +52,7 @@ func runC10(e *env) {
 		"(iota blocks, explicit, negative, gaps, duplicates, blanks, interleaved unexported, string/bool/float-backed, single-line, multi-name specs, opt-out comments, same type name in two packages); " +
 		"one evaluation = one module (all its enums); non-trivial = the module declares at least 2 typed constants of a defined type; distinct = distinct source texts"
 	e.m.Extra = map[string]interface{}{"mismatch_means": "model"}
-	specs := append(corpusEnums(), repoFixtures("repo-testsource-defs", "repo-subpackage-enums")...)
+	specs := append(append(corpusEnums(), sameNamePackages()), repoFixtures("repo-testsource-defs", "repo-subpackage-enums")...)
 	n := 24
 	if e.thorough() {
 		n = 400
